@@ -97,9 +97,23 @@ def strategy(tier):
             pass
         return {"f": "x", "x": x, "y": y}
 
+    TVAL = st.one_of(st.sampled_from([0, 0, 0.0, 273.15, -273.15, 32, -40, 100, 459.67, -459.67, 491.67, 255.372, 1, -1]),
+                     st.integers(-500, 1000), st.floats(min_value=-500, max_value=2000, allow_nan=False))
+    TSCALE = st.sampled_from(["kelvin", "celsius", "fahrenheit", "Rankine"])
+
+    @st.composite
+    def temps(draw):
+        n = draw(st.integers(2, 4))
+        return {"f": "t", "items": [[draw(TSCALE), draw(TVAL)] for _ in range(n)]}
+
     @st.composite
     def mix(draw):
-        return draw(qlist()) if draw(convgen.INT100) < 60 else draw(xpair())
+        sel = draw(convgen.INT100)
+        if sel < 55:
+            return draw(qlist())
+        if sel < 65:
+            return draw(temps())
+        return draw(xpair())
 
     return mix()
 
@@ -353,10 +367,68 @@ def _run_x(case, out):
     out.sample = {"family": "mixed", "x": repr(x), "y": repr(y), "x==y": res[0], "y==x": res[1]}
 
 
+T_ZERO = {"kelvin": (Fraction(1), Fraction(0)), "celsius": (Fraction(1), Fraction("273.15")),
+          "Rankine": (Fraction(5, 9), Fraction(0)), "fahrenheit": (Fraction(5, 9), Fraction("459.67") * Fraction(5, 9))}
+
+
+def _run_t(case, out):
+    """temperatures on the four scales: order and equality must agree with the kelvin values
+    (exact affine definitions), including at the zero points"""
+    c = convgen.ctx()
+    m = c.m
+    try:
+        items = case["items"]
+        qs, ks = [], []
+        for scale, v in items:
+            if scale not in T_ZERO or isinstance(v, bool) or not isinstance(v, (int, float)) or v != v or abs(v) > 1e6:
+                raise ValueError
+            qs.append(m.Quantity(v, c.snap.units[scale]))
+            a, b = T_ZERO[scale]
+            ks.append(Fraction(v) * a + b)
+    except Exception:
+        out.invalid = True
+        return
+    out.classes.append("t:checked")
+    for i, a in enumerate(qs):
+        for j, b in enumerate(qs):
+            if j <= i:
+                continue
+            tie = abs(ks[i] - ks[j]) <= Fraction(1, 10**9) * max(abs(ks[i]), abs(ks[j]), Fraction("273.15"))
+            try:
+                res = {"==": a == b, "r==": b == a, "<": a < b, ">": a > b, "<=": a <= b, ">=": a >= b}
+            except Exception as e:  # noqa
+                out.fail(f"C12:t:raises:{type(e).__name__}@{core.innermost_frame(e)}", f"comparing {a!r} with {b!r} raised {type(e).__name__}: {e}")
+                continue
+            for name in ("==", "r=="):
+                if res[name] is True and a.unit is b.unit and hash(a) != hash(b):
+                    out.fail("C12:hash:same-unit-unprefixed", f"{a!r} == {b!r} but hashes differ")
+            if tie:
+                out.classes.append("t:tie")
+                continue
+            lt = ks[i] < ks[j]
+            if res["=="] is not False or res["r=="] is not False:
+                out.fail("C12:t:eq", f"{a!r} == {b!r} reported {res['==']}/{res['r==']}; kelvin values {float(ks[i])!r} vs {float(ks[j])!r}")
+            if res["<"] is not lt or res[">"] is not (not lt) or res["<="] is not lt or res[">="] is not (not lt):
+                out.fail("C12:t:order", f"{a!r} vs {b!r}: < {res['<']} > {res['>']} <= {res['<=']} >= {res['>=']}; kelvin values {float(ks[i])!r} vs {float(ks[j])!r}")
+    if all(abs(ks[i] - ks[j]) > Fraction(1, 10**9) * Fraction(300) for i in range(len(ks)) for j in range(i)):
+        try:
+            got = sorted(qs)
+            want = [q for _, _, q in sorted(zip(ks, range(len(qs)), qs), key=lambda t: (t[0], t[1]))]
+            if [id(q) for q in got] != [id(q) for q in want]:
+                out.fail("C12:t:sorted", f"sorted({qs!r}) = {got!r}")
+        except Exception as e:  # noqa
+            out.fail(f"C12:t:raises:{type(e).__name__}@{core.innermost_frame(e)}", f"sorting {qs!r} raised {e!r}")
+    if len({s for s, _ in items}) > 1:
+        out.nontrivial = "t|" + "|".join(f"{s}:{v}" for s, v in items)
+        out.sample = {"family": "temperatures", "items": items}
+
+
 def run_case(case) -> core.Outcome:
     out = core.Outcome()
     fam = case.get("f") if isinstance(case, dict) else None
-    if fam == "q":
+    if fam == "t":
+        _run_t(case, out)
+    elif fam == "q":
         _run_q(case, out)
     elif fam == "x":
         _run_x(case, out)
